@@ -159,6 +159,7 @@ def run(R):
                       "that knows `=` and `!=` only and otherwise falls through to `accept` makes `FILTER(?a > ?b)` a no-op; and the evaluator never "
                       "substitutes a default number for a value that does not parse")
     r12(R)
+    r13(R)
     R.rule("C05-R7", "match-or-bind is the last word on a binding row: after a premise position was matched against (or bound in) a row by "
                      "a match-or-bind helper, nothing overwrites entries of that row before it is emitted - a plain insert after the "
                      "test can replace the very value the test just accepted (repeated variable across positions)")
@@ -661,3 +662,81 @@ def r12(R):
                 bad.append(c.ln)
     R.ob("C05-R12", "no-default-number", "evaluate_filters never compares a value that is not a number as a default number", not bad, where=b.where(bad[0] if bad else None),
          detail=None if not bad else "`parse::<f64>().unwrap_or(0.0)`: `FILTER(?age < 18)` accepts the value \"unknown\"")
+
+
+def r13(R):
+    """rule filters are evaluated on complete bindings"""
+    prog = R.prog
+    R.rule("C05-R13", "filters see complete bindings: evaluate_filters passes over a filter whose left variable is unbound and compares a bound left "
+                      "variable with whatever stands on the right - for a right-hand variable that is not bound yet, its *name*. It is therefore "
+                      "called only where every premise of the rule has been joined: from no site of evaluate_filters (followed through the closures "
+                      "it sits in) is a call that joins a single premise (a callee taking one `&(Term, Term, Term)`) reachable within the same "
+                      "iteration of the enclosing loops. A filter applied between two joins rejects `?A < ?B` bindings whose ?B the next premise "
+                      "would have bound, and the strategy stops short of the least model")
+    ev = prog.one("reasoning::rules::evaluate_filters", crate="datalog")
+    if not R.anchor("C05-R13", "evaluate_filters", ev):
+        return
+    PAT = "&(shared::terms::Term, shared::terms::Term, shared::terms::Term)"
+    # precondition of the rule: the right-hand side of a filter is untyped text, so the evaluator cannot tell an unbound variable from a constant
+    fcs = [a for a in prog.find_adt("FilterCondition") if any(f["name"] == "value" for f in a["variants"][0]["fields"])]
+    untyped = bool(fcs) and all(f["ty"] == "alloc::string::String" for a in fcs for f in a["variants"][0]["fields"] if f["name"] == "value")
+    if not R.ob("C05-R13", "precondition", "FilterCondition.value is untyped text (a variable and a constant look alike to the evaluator)", untyped,
+                where=ev.where(), detail=None if untyped else "the filter representation changed: this rule's premise has to be re-derived"):
+        return
+
+    def joins_one_premise(c):
+        k = c.key
+        if k not in prog.bodies:
+            return False
+        y = prog.bodies[k]
+        if y.crate != "datalog" or y.key == ev.key:
+            return False
+        tys = [y.local_ty(i) for i in range(1, y.nargs + 1)]
+        if PAT not in tys:
+            return False
+        ret = y.local_ty(0)
+        # a join returns the extended set of bindings, or extends a binding in place and says whether the premise matched
+        return ("Vec<" in ret and "Map<alloc::string::String" in ret) or (ret == "bool" and any(t.startswith("&mut") and "Map<alloc::string::String" in t for t in tys))
+
+    def sites_of(z, bb):
+        """effective sites (body, bb) in non-closure bodies at which code of closure z at bb runs"""
+        if not z.is_closure:
+            return [(z, bb)]
+        parent = prog.bodies.get(z.parent)
+        if parent is None:
+            return []
+        out = []
+        called = [c for c in parent.calls() if c.key == z.key]
+        for c in called:
+            out += sites_of(parent, c.bb)
+        if not called:
+            for b2, i, pl, rv, st in parent.assigns():
+                if rv["rv"] == "aggregate" and rv.get("ak") == "closure" and rv.get("closure") == z.key:
+                    # handed to an adaptor / stored: look for calls of the local it is stored in, else the creation site
+                    out += sites_of(parent, b2)
+        return out
+
+    n = 0
+    for y in sorted(prog.bodies.values(), key=lambda x: x.key):
+        if y.crate != "datalog" or "::tests::" in y.key:
+            continue
+        for c in y.calls():
+            if c.key != ev.key:
+                continue
+            for x, bb in sites_of(y, c.bb):
+                n += 1
+                R.saw(x)
+                loops = sorted(x.loops_containing(bb), key=lambda hl: len(hl[1]))
+                avoid = {h for h, _ in loops[1:]}
+                region = x.reach_from(x.succ(bb), avoid=avoid) | ({bb} if loops else set())
+                late = sorted({cc.name() for cc in x.calls() if cc.bb in region and cc.bb != bb and joins_one_premise(cc)})
+                # closures created in the region that join premises count as well
+                for b2, i, pl, rv, st in x.assigns():
+                    if b2 in region and rv["rv"] == "aggregate" and rv.get("ak") == "closure" and rv.get("closure") in prog.bodies:
+                        for zz in prog.family(rv["closure"]):
+                            late += [cc.name() for cc in zz.calls() if joins_one_premise(cc)]
+                R.ob("C05-R13", "complete:%s:%d" % (x.short, n), "in %s the filters are evaluated after the last premise was joined (premise joins still ahead: %s)"
+                     % (x.short, sorted(set(late))), not late, where=x.where(c.ln),
+                     detail=None if not late else "`ok(X) :- reading(X, A), limit(X, B), A < B`: when reading is joined first, `A < B` is evaluated with B unbound, "
+                     "compares A with the text `B`, fails, and the binding is gone before limit could bind B")
+    R.floor("C05-R13", "filter evaluation sites", n, 4)
